@@ -9,7 +9,9 @@ package main
 //     FINDNODES they answer with validly v4-signed records X1..Xm of nodes that do
 //     not exist (nobody listens at their endpoints), lying at exactly the
 //     log-distances (from B) that R requested, and with records of Y1..Yj, scripted
-//     peers that do exist and answer.
+//     peers that do exist and answer. Z is one more existing peer nobody lists: R pings
+//     it directly (real ping call) while the lookup runs, so it enters the table as
+//     checked without the monitor's doing — the oracle's "R heard from it" branch.
 //   - R.P.Lookup(target) runs the real lookup (lookup worker, find-nodes call,
 //     response filtering, table insertion).
 //   - While the lookup runs and after it, askers send FINDNODES to R for the
@@ -96,7 +98,7 @@ const (
 
 // what the monitor knows about a record it created
 type hsOrigin struct {
-	kind string // "B" | "X" | "Y" | "asker"
+	kind string // "B" | "X" | "Y" | "Z" | "asker"
 	via  int    // X: index of the B listing it
 	dB   int    // X: log-distance from that B
 	ldR  int    // log-distance from R
@@ -383,8 +385,11 @@ func (h *hsWorld) judgeHearsay(o *respObs, phase string) {
 			r.Count("hearsay_offered_inserted_as_checked_by_monitor", 1)
 		case heard > 0:
 			r.Count("hearsay_offered_after_datagrams_from_that_node", 1)
-			if kind == "Y" {
+			switch kind {
+			case "Y":
 				r.Count("hearsay_offered_learned_by_hearsay_then_answered", 1)
+			case "Z":
+				r.Count("hearsay_offered_contacted_by_R_and_answered", 1)
 			}
 		default:
 			h.hmu.Lock()
@@ -495,6 +500,12 @@ func runHearsayWorld(r *lib.Run, idx, rounds int) (done int, err error) {
 		h.live = append(h.live, y)
 		h.origin[y.ID()] = &hsOrigin{kind: "Y", ldR: refLogDist(rid, y.ID()), ep: v.yAddr(i), node: y.Self()}
 	}
+	z, err := start(v.yAddr(hsLivePeers))
+	if err != nil {
+		return 0, fmt.Errorf("start Z: %w", err)
+	}
+	z.OnTalk(proto, liveHandler(z))
+	h.origin[z.ID()] = &hsOrigin{kind: "Z", ldR: refLogDist(rid, z.ID()), ep: v.yAddr(hsLivePeers), node: z.Self()}
 	// listing peers and their dead records
 	pub := &publicIPs{n: 20000 + idx*64}
 	xn := 0
@@ -619,6 +630,12 @@ wait:
 			break wait
 		case <-time.After(3 * time.Millisecond):
 		}
+	}
+	// R contacts an existing peer nobody listed; its answer makes it a checked entry
+	if _, err := R.P.VerifPing(z.Self()); err != nil {
+		r.Count("hearsay_direct_ping_failed", 1)
+	} else {
+		r.Count("hearsay_direct_ping_answered", 1)
 	}
 	for k := 1; k < rounds-1; k++ {
 		if k > 1 {
